@@ -317,6 +317,9 @@ func (e *Env) Attrs(r *rand.Rand, el string) [][2]string {
 		}
 		e.mu.Unlock()
 		switch r.Intn(24) {
+		case 2:
+			// a namespace-prefixed spelling of the name: another attribute altogether
+			k = gen.Pick(r, []string{"xml:", "xlink:", "x:", "xmlns:"}) + k
 		case 0:
 			// the attribute's own name as its value (the XHTML spelling of a boolean attribute)
 			val = gen.Pick(r, []string{k, strings.ToUpper(k)})
